@@ -504,7 +504,22 @@ pub fn format_swift_amount(amount: f64, decimals: usize) -> String {
 /// ```
 pub fn format_swift_amount_for_currency(amount: f64, currency: &str) -> String {
     let decimals = get_currency_decimals(currency);
-    format_swift_amount(amount, decimals as usize)
+    let formatted = format_swift_amount(amount, decimals as usize);
+
+    // The amount component is 15d. Padding zeros after the separator (and then a bare
+    // separator) are optional, so they are dropped when they would push the text over
+    // the limit: 1234567890123,4 is written back as such and not as 1234567890123,40
+    if formatted.len() > 15 && formatted.contains(',') {
+        let trimmed = formatted.trim_end_matches('0');
+        let trimmed = if trimmed.len() > 15 {
+            trimmed.trim_end_matches(',')
+        } else {
+            trimmed
+        };
+        return trimmed.to_string();
+    }
+
+    formatted
 }
 
 /// Parse date in YYMMDD format
